@@ -364,14 +364,17 @@ CHECKS["C15"] = {
              "loads, ref_gep with offset 0 (alias) and 4 (next cell of the same object), assume p==q / p!=q / p!=null, x:=x+1, save / join / "
              "widening with the saved state) + 17 extended ones (references stored in and loaded from RR, region_copy and accesses to the copy, "
              "ref_free, assume p==null, select_ref with null, a third allocation site, meet, swap). All histories of depth <=4 core / <=3 "
-             "everything (5 / 4 thorough), from the state after region_init(R1), region_init(RR) and (depth <=3) from top without region_init; "
+             "everything (5 / 4 thorough), from the state after region_init(R1), region_init(RR), region_init(RB) and (depth <=3) from top without "
+             "region_init; a third root = a boolean region RB holding two objects referenced by p and q, with its own alphabet (b1:=true/false, "
+             "havoc(b1), stores of b1 through p and q, loads into b2, alias q:=gep(p,RB,0), assume p==q / p!=q, a new allocation, save / join / "
+             "widening / swap) to depth 5 (6); "
              "7 domains (region domain over intervals, zones, constants, signs, sign x constant, flat boolean x intervals, array_adaptive) x "
              "every region_domain_params tuple of the configuration lists (allocation sites, deallocation, tag analysis, is_dereferenceable, "
              "skip_unknown_regions). Clauses: a state with a concrete heap is never bottom, also not after a load; scalars satisfy M1/M3; "
              "at(t) after t:=load(ref,R) contains the value stored in the addressed cell of every heap; is_null_ref true / false holds in "
              "every heap; a reported allocation-site set contains the site of the object the reference points to."),
     "assumptions": ["accesses through null or freed references, reads of never-written cells, gep outside an object and more than 4 objects leave the model (the heap is dropped)",
-                    "a reference is used only with the region it was created in or a copy of that region"],
+                    "a reference is used only with the region its object was allocated in (or the copy R2 of R1); an access with another region drops the heap"],
     "level_text": "Complete enumeration of operation histories up to the stated depths over the stated alphabets, for every listed domain and parameter tuple.",
     "level_note": "Tags (get_tags) need intrinsics to be set and are not exercised; address order constraints (<, <=) are not modelled.",
 }
